@@ -115,7 +115,7 @@ def check_case(case, ctx, h=None):
         raise Violation(case, 'script inside the domain was refused: %s' % got['refused'], observed=got, expected=_short(exp))
     nexec = len(exp['trace'])
     cls = case.get('cls') or 'grammar'
-    nontriv = nexec >= 3 or cls in ('operand', 'enum1', 'enum2', 'long', 'deep-if', 'p2sh-shape', 'deep-stack')
+    nontriv = nexec >= 3 or cls in ('operand', 'enum1', 'enum2', 'long', 'deep-if', 'p2sh-shape', 'deep-stack', 'precedence')
     ctx.case(key, nontriv, dict(case_json(case), outcome=exp['err'] or 'ok', ops=nexec), cls)
     ctx.count('outcome:' + (exp['err'] or 'ok'))
     ctx.count('sv:%d' % case['sv'])
@@ -227,6 +227,28 @@ def long_cases(draw):
 
 
 @st.composite
+def precedence_cases(draw):
+    """one operation at which TWO failure conditions hold at once, so that the ORDER of the interpreter's tests decides the reported error: the 202nd
+    counted operation (or the 201st / 200th as controls) is a disabled opcode, a reserved / undefined opcode, OP_VERIF, a code separator under
+    CONST_SCRIPTCODE, an operation without its operands, an unbalanced OP_ELSE / OP_ENDIF, OP_RETURN ... - executed or inside an unexecuted branch"""
+    last = draw(st.one_of(st.sampled_from(sorted(R.DISABLED)), st.sampled_from([0xab, 0x65, 0x66, 0x50, 0x62, 0x89, 0x8a, 0xba, 0xbb, 0xfe, 0xff, 0x93, 0x67, 0x68, 0x6a, 0x69, 0xac, 0xae, 0xb1, 0xb2])))
+    n = draw(st.sampled_from([198, 199, 200, 200, 201, 201]))
+    unexec = draw(st.booleans())
+    filler = draw(st.sampled_from([0x61, 0x61, 0xb0, 0xb9]))
+    if unexec:
+        # OP_0 OP_IF <n-1 fillers> X OP_ENDIF : OP_IF is the first counted operation
+        body = bytes([0x00, 0x63]) + bytes([filler]) * (n - 1) + bytes([last]) + bytes([0x68, 0x51])
+    else:
+        body = bytes([0x51]) + bytes([filler]) * n + bytes([last])
+    flags = draw(G.flagsets())
+    if last == 0xab and draw(st.booleans()):
+        flags |= F['CONST_SCRIPTCODE']
+    if filler in (0xb0, 0xb9) and draw(st.booleans()):
+        flags &= ~F['DISCOURAGE_UPGRADABLE_NOPS']
+    return dict(script=body, stack=[], flags=flags, sv=draw(st.sampled_from([R.BASE, R.BASE, R.WITNESS_V0, R.TAPSCRIPT])), tx=None, cls='precedence')
+
+
+@st.composite
 def deep_stack_cases(draw):
     """stacks of several hundred items (limit: 1000 with the alt stack): OP_PICK / OP_ROLL with indices beyond one byte and at the far end, OP_DEPTH
     results beyond 255, bulk moves to the alt stack and back, the 2/3-item movers near the limit"""
@@ -323,6 +345,10 @@ def w_p2sh_shape(ctx, wid, seed, examples):
     core.hyp_campaign(ctx, 'p2sh-shape', p2sh_shape_cases(), check_case, examples, seed, case_json)
 
 
+def w_precedence(ctx, wid, seed, examples):
+    core.hyp_campaign(ctx, 'precedence', precedence_cases(), check_case, examples, seed, case_json)
+
+
 def w_deep_if(ctx, wid, seed, examples):
     core.hyp_campaign(ctx, 'deep-if', deep_if_cases(), check_case, examples, seed, case_json)
 
@@ -402,6 +428,7 @@ def run(tier, t0):
     tasks += [(w_raw, dict(examples=r)) for _ in range(max(2, W // 4))]
     tasks += [(w_long, dict(examples=max(40, r // 8))) for _ in range(max(2, W // 4))]
     tasks += [(w_deep_if, dict(examples=max(60, r // 8))) for _ in range(2)]
+    tasks += [(w_precedence, dict(examples=max(400, r // 2))) for _ in range(2)]
     tasks += [(w_p2sh_shape, dict(examples=max(300, r))) for _ in range(2)]
     tasks += [(w_deep_stack, dict(examples=max(60, r // 8))) for _ in range(2)]
     m = core.parallel(PID, tasks)
